@@ -191,6 +191,37 @@ def main():
                 padd(target, frames, ev, list(range(1, npend + 1)), "random_long_all_abandoned")
                 padd(target, frames, ev, sorted(rng.sample(range(1, npend + 1), rng.randrange(0, npend + 1))) if npend else [],
                      "random_long_random_subset")
+            if not ck.replay:
+                # (iii) bursts whose total length is an exact multiple of the step far above the hook limit
+                # (the data ends exactly at the end of the grown buffer), alone and pipelined
+                for total in ([16 * limit, 16 * limit + step, 32 * limit] if ck.tier == "quick" else
+                              [16 * limit - step, 16 * limit, 16 * limit + step, 17 * limit, 32 * limit, 64 * limit, 256 * limit]):
+                    for target in ("call_strict", "reply_typed"):
+                        small, _ = fg.frame(rng, target, kind="valid")
+                        for frames in ([None], [small, None], [None, small]):
+                            rest = total - sum(len(f) + 1 for f in frames if f is not None) - 1
+                            big, _ = fg.frame(rng, target, kind="valid", size=rest)
+                            fr = [big if f is None else f for f in frames]
+                            stream = fg.wire(fr)
+                            assert len(stream) == total
+                            npieces = rng.choice([1, 1, 3])
+                            chunks = fg.chunks_from_cuts(stream, fg.random_cuts(rng, len(stream), npieces - 1))
+                            ev = []
+                            for ch in chunks:
+                                ev.append(["d", ch.hex()])
+                            ev.append(["e"])
+                            padd(target, fr, ev, [], "exact_multiple_of_step_large")
+                # (iv) one frame above a mebibyte (thousands of transport reads in one receive) in two pieces,
+                # the receive abandoned at every suspension point, at the first only, or never
+                for sz in ([300 * limit] if ck.tier == "quick" else [260 * limit, 300 * limit, 600 * limit]):
+                    target = "call_strict"
+                    big, _ = fg.frame(rng, target, kind="valid", size=sz)
+                    tail, _ = fg.frame(rng, target, kind="valid")
+                    stream = fg.wire([big, tail])
+                    cut = sz - 3 * limit
+                    ev = [["d", stream[:cut].hex()], ["p"], ["d", stream[cut:].hex()], ["e"]]
+                    for cancel in ([1], list(range(1, 6)), []):
+                        padd(target, [big, tail], ev, cancel, "mebibyte_frame")
             exe = os.path.join(root, "target-nohook", "debug", "conn")
             n_sh = 12
             parts = [pcases[j::n_sh] for j in range(n_sh) if pcases[j::n_sh]]
@@ -222,6 +253,12 @@ def main():
                                  {"leg": "production", "case": slim, "impl": r}, tag="pp%d" % c["id"])
                     continue
                 prod_cancels += r.get("cancels", 0)
+                if r.get("lost_wakeups"):
+                    ck.violation("production limit: a receive returned Pending %d time(s) although the transport was not "
+                                 "pending and no wake-up was arranged" % r["lost_wakeups"],
+                                 {"leg": "production", "case": slim, "impl": {k: v for k, v in r.items() if k != "segs"}},
+                                 tag="pw%d" % c["id"])
+                    continue
                 want = [r["segs"].get(f) for f in c["frames"]]
                 got = [o["res"] for o in r.get("ops", [])]
                 if r.get("stuck") or got[:len(want)] != want or len(got) != len(want) + 1 or got[-1].startswith("ok") \
